@@ -233,10 +233,22 @@ def pool_monoidal(rng, name):
              Sum([], d.dom, d.cod), Sum([], d.cod, d.dom), (d + alt)[::-1][::-1],
              Sum([d, alt], d.dom, d.cod), Sum([d]) + Sum([alt]),
              Sum([], d.dom, d.cod) + d]
+    # histories: sums accumulated with += (the value must be the sum of what
+    # was added, and the sum it started from must still be what it was)
+    acc, zero = Sum([d]), Sum([], d.dom, d.cod)
+    hash(acc), hash(zero), repr(acc)
+    started_from = zero
+    acc += alt
+    zero += d
+    pool += [acc, zero, started_from]
     Bubble = type(d.bubble())
     pool += [d.bubble(), Bubble(d), alt.bubble(), d.bubble().bubble(),
              d.bubble(dom=d.dom @ d.dom), Bubble(d, dom=d.dom @ d.dom),
-             mod.Id(mod.Ty()) @ d.bubble()]
+             mod.Id(mod.Ty()) @ d.bubble(),
+             # both boundary types overridden and different from the inside's
+             Bubble(d, dom=d.dom @ d.dom, cod=d.cod @ d.cod),
+             d.bubble(dom=d.dom @ d.cod, cod=d.cod @ d.dom),
+             Bubble(d, cod=d.cod @ d.cod), Bubble(d, dom=d.cod, cod=d.dom)]
     return pool, mod, ns
 
 
